@@ -87,6 +87,8 @@ def canon_of(G, lab):
 def run_impl(pdag, fam="int", rule=None, i=None, j=None):
     """run the closure (or one rule) on the encoded PDAG; returns canonical string (`T|F ` prefix for a rule)"""
     from pywhy_graphs.algorithms import pag as pagmod
+    if C.too_many_timeouts():
+        return "err:timeout"        # several closures did not return already: the run ends with that finding
     lab = C.Labels(fam)
     try:
         G = build_cpdag(pdag, lab)
@@ -128,6 +130,7 @@ def run_impl(pdag, fam="int", rule=None, i=None, j=None):
             pre = ("T " if r is True else "F " if r is False else "bad:%r " % (r,))
         return pre + canon_of(G, lab)
     except _Timeout:
+        C.note_timeout({"pdag": pdag, "fam": fam, "rule": rule, "i": i, "j": j}, TIMEOUT_S)
         return "err:timeout"
     except Exception as e:
         return "err:" + type(e).__name__
